@@ -99,6 +99,14 @@ type Inst struct {
 
 func baseKind(k string) string { return strings.TrimLeft(k, "fo") }
 
+// ScopeRec gives a scope id a non-default identity. Default: name = id, version = "v"+id, no schema URL.
+type ScopeRec struct {
+	ID      string `json:"id"`
+	Name    string `json:"name"`
+	Version string `json:"version"`
+	URL     string `json:"url"`
+}
+
 // ---------------------------------------------------------------- observed exposition
 
 type OBucket struct {
@@ -299,17 +307,37 @@ const (
 )
 
 type world struct {
-	opts   Opts
-	reg    *capReg
-	exp    *otelprom.Exporter
-	mp     *sdkmetric.MeterProvider
-	res    []Attr
-	insts  map[int]*rinst
-	expo   map[string]bool // instrument names that want a base-2 exponential histogram
-	mu     sync.Mutex
-	errs   []string // errors reported through otel.Handle during the scenario
-	scopes map[string]metric.Meter
-	maxScale int // MaxScale of exponential histogram views
+	opts      Opts
+	reg       *capReg
+	exp       *otelprom.Exporter
+	mp        *sdkmetric.MeterProvider
+	res       []Attr
+	insts     map[int]*rinst
+	expo      map[string]bool // instrument names that want a base-2 exponential histogram
+	mu        sync.Mutex
+	errs      []string // errors reported through otel.Handle during the scenario
+	scopes    map[string]metric.Meter
+	maxScale  int // MaxScale of exponential histogram views
+	scopeRecs []ScopeRec
+}
+
+func (w *world) scopeRec(id string) ScopeRec {
+	for _, r := range w.scopeRecs {
+		if r.ID == id {
+			return r
+		}
+	}
+	return ScopeRec{ID: id, Name: id, Version: "v" + id}
+}
+
+// scopeID maps what the SDK reports back to the scenario's scope id.
+func (w *world) scopeID(name, version, url string) string {
+	for _, r := range w.scopeRecs {
+		if r.Name == name && r.Version == version && r.URL == url {
+			return r.ID
+		}
+	}
+	return name
 }
 
 type rinst struct {
@@ -385,7 +413,7 @@ func newWorld(o Opts, res []Attr) (*world, error) {
 	view := func(i sdkmetric.Instrument) (sdkmetric.Stream, bool) {
 		w.mu.Lock()
 		defer w.mu.Unlock()
-		if w.expo[i.Scope.Name+"\x00"+i.Name] {
+		if w.expo[w.scopeID(i.Scope.Name, i.Scope.Version, i.Scope.SchemaURL)+"\x00"+i.Name] {
 			return sdkmetric.Stream{Name: i.Name, Description: i.Description, Unit: i.Unit,
 				Aggregation: sdkmetric.AggregationBase2ExponentialHistogram{MaxSize: 160, MaxScale: int32(w.maxScale)}}, true
 		}
@@ -409,7 +437,12 @@ func (w *world) meter(scope string) metric.Meter {
 	if m, ok := w.scopes[scope]; ok {
 		return m
 	}
-	m := w.mp.Meter(scope, metric.WithInstrumentationVersion("v"+scope))
+	r := w.scopeRec(scope)
+	mopts := []metric.MeterOption{metric.WithInstrumentationVersion(r.Version)}
+	if r.URL != "" {
+		mopts = append(mopts, metric.WithSchemaURL(r.URL))
+	}
+	m := w.mp.Meter(r.Name, mopts...)
 	w.scopes[scope] = m
 	return m
 }
@@ -488,7 +521,9 @@ func (w *world) create(in Inst) error {
 		if float {
 			var c metric.Float64Counter
 			c, err = m.Float64Counter(name, metric.WithUnit(in.Unit), metric.WithDescription(in.Desc))
-			ri.add = func(ctx context.Context, v float64, a []attribute.KeyValue) { c.Add(ctx, v, metric.WithAttributes(a...)) }
+			ri.add = func(ctx context.Context, v float64, a []attribute.KeyValue) {
+				c.Add(ctx, v, metric.WithAttributes(a...))
+			}
 		} else {
 			var c metric.Int64Counter
 			c, err = m.Int64Counter(name, metric.WithUnit(in.Unit), metric.WithDescription(in.Desc))
@@ -500,7 +535,9 @@ func (w *world) create(in Inst) error {
 		if float {
 			var c metric.Float64UpDownCounter
 			c, err = m.Float64UpDownCounter(name, metric.WithUnit(in.Unit), metric.WithDescription(in.Desc))
-			ri.add = func(ctx context.Context, v float64, a []attribute.KeyValue) { c.Add(ctx, v, metric.WithAttributes(a...)) }
+			ri.add = func(ctx context.Context, v float64, a []attribute.KeyValue) {
+				c.Add(ctx, v, metric.WithAttributes(a...))
+			}
 		} else {
 			var c metric.Int64UpDownCounter
 			c, err = m.Int64UpDownCounter(name, metric.WithUnit(in.Unit), metric.WithDescription(in.Desc))
@@ -618,17 +655,17 @@ func (w *world) gatherObs() Obs {
 
 // SPoint is one data point of the SDK's own (cumulative) view through the same reader.
 type SPoint struct {
-	AS     int        `json:"as"` // attribute set index (from the vas marker)
-	Val    string     `json:"val"`
-	Count  int64      `json:"count"`
-	Sum    string     `json:"sum"`
-	Counts []int64    `json:"counts"` // per-bucket (NOT cumulative), len(bounds)+1
-	Scale  int64      `json:"scale"`
-	Zero   int64      `json:"zero"`
-	POff   int64      `json:"poff"`
-	PCnt   []int64    `json:"pcnt"`
-	NOff   int64      `json:"noff"`
-	NCnt   []int64    `json:"ncnt"`
+	AS     int     `json:"as"` // attribute set index (from the vas marker)
+	Val    string  `json:"val"`
+	Count  int64   `json:"count"`
+	Sum    string  `json:"sum"`
+	Counts []int64 `json:"counts"` // per-bucket (NOT cumulative), len(bounds)+1
+	Scale  int64   `json:"scale"`
+	Zero   int64   `json:"zero"`
+	POff   int64   `json:"poff"`
+	PCnt   []int64 `json:"pcnt"`
+	NOff   int64   `json:"noff"`
+	NCnt   []int64 `json:"ncnt"`
 }
 type SStream struct {
 	Inst   int      `json:"inst"`
@@ -696,10 +733,14 @@ func (w *world) sdkView() ([]SStream, error) {
 		return nil, err
 	}
 	out := []SStream{}
-	sort.Slice(rm.ScopeMetrics, func(a, b int) bool { return rm.ScopeMetrics[a].Scope.Name < rm.ScopeMetrics[b].Scope.Name })
-	for _, sm := range rm.ScopeMetrics {
+	sid := func(i int) string {
+		sc := rm.ScopeMetrics[i].Scope
+		return w.scopeID(sc.Name, sc.Version, sc.SchemaURL)
+	}
+	sort.Slice(rm.ScopeMetrics, func(a, b int) bool { return sid(a) < sid(b) })
+	for i, sm := range rm.ScopeMetrics {
 		for _, m := range sm.Metrics {
-			s := SStream{Scope: sm.Scope.Name}
+			s := SStream{Scope: sid(i)}
 			var id string
 			switch d := m.Data.(type) {
 			case metricdata.Sum[int64]:
